@@ -204,6 +204,13 @@ def mk_cmp(op, a, b):
         op, a, b = '<=', b, a
     if is_c(a) and is_c(b):
         return C(int({'<': a[1] < b[1], '<=': a[1] <= b[1], '==': a[1] == b[1], '!=': a[1] != b[1]}[op]))
+    # truth value compared with 0 / 1:  (x < y) == 0  ->  y <= x
+    if op in ('==', '!=') and a[0] == 'cmp' and is_c(b) and b[1] in (0, 1):
+        same = (b[1] == 1) == (op == '==')
+        return a if same else negate(a)
+    if op in ('==', '!=') and b[0] == 'cmp' and is_c(a) and a[1] in (0, 1):
+        same = (a[1] == 1) == (op == '==')
+        return b if same else negate(b)
     return ('cmp', op, a, b)
 
 
@@ -1222,11 +1229,11 @@ class _Activation:
             return True
         if kd == 'UnaryOperator' and n0['opcode'] == '!':
             return True
-        qt = cast.qual_type(n0)
+        qt = cast.qual_type(n0).replace('const ', '').strip()
         if qt in ('_Bool', 'bool'):
             return True
         if kd == 'CallExpr':
-            return cast.qual_type(n0) in ('_Bool', 'bool')
+            return qt in ('_Bool', 'bool')
         return False
 
     # -- lvalues ---------------------------------------------------------------
